@@ -7,7 +7,7 @@ SEEDED = os.path.join(H, "seeded")
 RELATED = {  # checks run in addition to the property's own one
     "C03a": ["C14"], "C14a": ["C03"], "C04b": ["C03"], "C08b": ["C15"], "C15a": ["C08"], "C16a": ["C07"], "C10b": ["C11"], "C11b": ["C10"],
     "C13b": ["C15"], "C15b": ["C13"], "C05b": ["C02", "C04"], "C02a": ["C05"], "C01a": ["C05", "C08"], "C17a": ["C12"],
-    "C02e": ["C12"], "C02f": ["C12"], "C03f": ["C17"], "C11f": ["C17"], "C12f": ["C08"], "C10e": ["C16"], "C03e": ["C05"], "C01f": ["C02"], "C17f": ["C10"],
+    "C02e": ["C12"], "C02f": ["C12"], "C03f": ["C17"], "C11f": ["C17"], "C12f": ["C08", "C01"], "C10e": ["C16"], "C03e": ["C05"], "C01f": ["C02"], "C17f": ["C10"],
 }
 def props_of(name):
     p = os.path.join(SEEDED, name, "props.txt")
